@@ -44,6 +44,9 @@ type Case struct {
 	Layout string    `json:"layout"`
 	Pkgs   []PkgInit `json:"pkgs"`
 	Steps  []Step    `json:"steps"`
+	// Clutter: every package directory also holds files wire has no business with - a hand-written file behind
+	// the !wireinject constraint whose name ends in _gen.go, a testdata directory, a nested module
+	Clutter bool `json:"clutter,omitempty"`
 }
 
 func (s Step) String() string {
@@ -132,6 +135,7 @@ func GenCase(r *rand.Rand, prop string, thorough bool) *Case {
 	if r.IntN(6) == 0 {
 		c.Layout = pick(r, []string{world.LayoutGopath, world.LayoutGopathVendor, world.LayoutModVendor})
 	}
+	c.Clutter = r.IntN(4) == 0
 	libv := "lib_ok"
 	switch r.IntN(6) {
 	case 0:
@@ -267,7 +271,12 @@ func genCmd(r *rand.Rand, prop string, names, nonlib []string, cur map[string]st
 		case 0, 1:
 			st.Patterns = []string{"./..."}
 		case 2:
-			st.Patterns = []string{"./" + pick(r, nonlib)}
+			one := pick(r, nonlib)
+			st.Patterns = []string{"./" + one}
+			if r.IntN(4) == 0 {
+				// the same package named twice, by two spellings
+				st.Patterns = append(st.Patterns, "example.com/"+one)
+			}
 		case 3:
 			st.Patterns = []string{"example.com/" + pick(r, names)}
 		case 4:
@@ -293,7 +302,7 @@ func genCmd(r *rand.Rand, prop string, names, nonlib []string, cur map[string]st
 			st.Header = "good"
 		}
 		if st.Cmd == "gen" && r.IntN(3) == 0 {
-			st.Prefix = pick(r, []string{"x_", "zz"})
+			st.Prefix = pick(r, []string{"x_", "zz", "v1.gen."})
 		}
 		if r.IntN(3) == 0 {
 			st.Tags = pick(r, []string{"foo", "foo bar"})
